@@ -68,12 +68,30 @@ func (e *Exec) dynamicCall(st *BState, x *ssa.Call, args []SV) (SV, bool) {
 		if ok && sig.Params().Len() == 1 && sig.Results().Len() == 1 && namedIs(sig.Params().At(0).Type(), "octosql/execution", "Record") {
 			if _, has := st.ghost["OUT"]; has {
 				e.ghostAppend(st, "OUT", x.Call.Args[0].Type(), args[0])
-				return e.freshSV(x.Type(), "cb.err", st.reach, false), true
+				rv := e.freshSV(x.Type(), "cb.err", st.reach, false)
+				e.noteProduceResult(st, rv)
+				return rv, true
 			}
 		}
 		return nil, false
 	}
-	return e.freshSV(x.Type(), "cb.err", st.reach, false), true
+	rv := e.freshSV(x.Type(), "cb.err", st.reach, false)
+	e.noteProduceResult(st, rv)
+	return rv, true
+}
+
+// noteProduceResult keeps the sticky ghost produceFailed(): some call of produce / metaSend made so far returned an error.
+func (e *Exec) noteProduceResult(st *BState, rv SV) {
+	iv, ok := rv.(*IfaceV)
+	if !ok {
+		return
+	}
+	old := tFalse
+	if v, ok := st.ghost["$produceFailed"]; ok {
+		old = scal(v)
+	}
+	st.ghost["$produceFailed"] = boolSV(or(old, not(eq(iv.Tag, intLit(0)))))
+	ghostTypes["$produceFailed"] = types.Typ[types.Bool]
 }
 
 func traceClosure(v ssa.Value) (*ssa.Function, *ssa.MakeClosure) {
